@@ -146,8 +146,9 @@ def shrink(ctx, hist, kind_prefix, rounds=8):
     """delta-debug a failing history: all single-op removals of a round run in one harness call"""
     cur = list(hist)
     for _ in range(rounds):
-        cands = [cur[:i] + cur[i + 1:] for i in range(1, len(cur))]
-        cands = [x for x in cands if len(x) > 1][:60]
+        cands = [["reset"] + cur[j:] for j in range(2, len(cur))]          # drop a whole prefix
+        cands += [cur[:i] + cur[i + 1:] for i in range(1, len(cur) - 1)]      # drop one op (never the failing one)
+        cands = [x for x in cands if 1 < len(x) < len(cur)][:80]
         if not cands:
             break
         res = run_histories(ctx, cands, "s")
